@@ -294,6 +294,7 @@ def _match_deep(sf, rng, seg):
         return its[0]
     d = 0
     end = None
+    block_stmt = toks[start].kind == "ident" and toks[start].text in ("if", "for", "while", "loop", "match", "unsafe")
     for j in range(start, rng[1]):
         t = toks[j]
         if t.kind == "punct":
@@ -301,6 +302,12 @@ def _match_deep(sf, rng, seg):
             elif t.text in CLOSE:
                 d -= 1
                 if d < 0: break
+                if d == 0 and t.text == "}" and block_stmt:
+                    # a block-like statement ends at its closing brace unless an `else` follows
+                    k = j + 1
+                    while k < rng[1] and toks[k].kind in TRIVIA: k += 1
+                    if k < rng[1] and toks[k].kind == "ident" and toks[k].text == "else": continue
+                    end = j + 1; break
             elif t.text == ";" and d == 0:
                 end = j + 1; break
     if end is None: raise LostAnchor("statement %r has no terminating `;`" % seg)
